@@ -1,25 +1,1099 @@
 package main
 
-import "verifmc/core"
+// Layer B: whole nodes, real transactions, a short term. Two observer nodes receive every block:
+// F never restarts, O is restarted by rs events (clean stop, reopen: deputynode.NewManager reloads
+// the terms from the stored snapshot blocks, the store rebuilds the list from context.data). Blocks
+// are built by the real BlockAssembler (ApplyTxs + Finalize + Seal with a real DPoVP as candidate
+// loader) on F's state with the key of the deputy whose turn it is, travel as RLP bytes and are
+// validated by both nodes' InsertBlock. Genesis has one deputy (d0: every block of term 0 is stable
+// at once on every node), the deputy managers take 2 deputies per term, the list has 3 slots.
+
+import (
+	"bytes"
+	"fmt"
+	"math/big"
+	"os"
+	"sort"
+	"strings"
+	"time"
+
+	"verifmc/core"
+	"verifmc/node"
+
+	"github.com/LemoFoundationLtd/lemochain-core/chain"
+	"github.com/LemoFoundationLtd/lemochain-core/chain/account"
+	"github.com/LemoFoundationLtd/lemochain-core/chain/consensus"
+	"github.com/LemoFoundationLtd/lemochain-core/chain/deputynode"
+	"github.com/LemoFoundationLtd/lemochain-core/chain/params"
+	"github.com/LemoFoundationLtd/lemochain-core/chain/transaction"
+	"github.com/LemoFoundationLtd/lemochain-core/chain/txpool"
+	"github.com/LemoFoundationLtd/lemochain-core/chain/types"
+	"github.com/LemoFoundationLtd/lemochain-core/common"
+	"github.com/LemoFoundationLtd/lemochain-core/common/flag"
+	"github.com/LemoFoundationLtd/lemochain-core/store"
+)
 
 const (
 	termDuration    = 4
 	interimDuration = 1
+	deputyCount     = 2
 )
 
-type scenB struct{ Name string }
+var (
+	kD0 = node.Deputy(0)
+	kC1 = node.K("c1")
+	kC2 = node.K("c2")
+	kC3 = node.K("c3")
+	kV  = node.User(0) // voter, 1090 LEMO = 5 votes
+	kW  = node.User(1) // voter, 300 LEMO = 1 vote
+)
 
-func (s *scenB) describe() interface{} { return s }
-func (s *scenB) depth() int            { return 0 }
+type candB struct {
+	name string
+	key  *node.Key
+}
+
+var candsB = []candB{{"d0", kD0}, {"c1", kC1}, {"c2", kC2}, {"c3", kC3}}
+
+func nameB(a common.Address) string {
+	for _, c := range candsB {
+		if c.key.Addr == a {
+			return c.name
+		}
+	}
+	switch a {
+	case kV.Addr:
+		return "V"
+	case kW.Addr:
+		return "W"
+	case node.Founder().Addr:
+		return "founder"
+	}
+	return "addr:" + a.Hex()[2:10]
+}
+
+// ---------------------------------------------------------------------------------------------
+// transactions
+
+type txDefB struct {
+	name string
+	kind string
+	mk   func(exp uint64) *types.Transaction
+}
+
+var txsB = map[string]*txDefB{}
+
+func profileB(k *node.Key, isCandidate string) map[string]string {
+	p := node.CandidateProfile(k, "7100")
+	p[types.CandidateKeyIsCandidate] = isCandidate
+	return p
+}
+
+func init() {
+	def := func(name, kind string, mk func(exp uint64) *types.Transaction) { txsB[name] = &txDefB{name, kind, mk} }
+	min := params.MinCandidateDeposit
+	reg := func(k *node.Key, extra int64) func(uint64) *types.Transaction {
+		return func(exp uint64) *types.Transaction {
+			return node.Register(k, new(big.Int).Add(min, node.Lemo(extra)), profileB(k, "true"), exp)
+		}
+	}
+	topup := func(k *node.Key, lemo int64) func(uint64) *types.Transaction {
+		return func(exp uint64) *types.Transaction { return node.Register(k, node.Lemo(lemo), profileB(k, "true"), exp) }
+	}
+	unreg := func(k *node.Key) func(uint64) *types.Transaction {
+		return func(exp uint64) *types.Transaction { return node.Register(k, new(big.Int), profileB(k, "false"), exp) }
+	}
+	vote := func(from, to *node.Key) func(uint64) *types.Transaction {
+		return func(exp uint64) *types.Transaction { return node.Vote(from, to.Addr, exp) }
+	}
+	xfer := func(from, to *node.Key, lemo int64) func(uint64) *types.Transaction {
+		return func(exp uint64) *types.Transaction { return node.Transfer(from, to.Addr, node.Lemo(lemo), exp) }
+	}
+	def("rC3", "register", reg(kC3, 0))       // 50000 votes
+	def("rC3+1", "register", reg(kC3, 100))   // 50001: ties with c2
+	def("rC3+3", "register", reg(kC3, 300))   // 50003: between c2 and c1
+	def("rC3+5", "register", reg(kC3, 500))   // 50005: above c1
+	def("uC2+1", "top-up", topup(kC2, 100))   // 50002
+	def("uC2+3", "top-up", topup(kC2, 300))   // 50004: ties with c1
+	def("uC2+5", "top-up", topup(kC2, 500))   // 50006: overtakes c1
+	def("xC1", "unregister", unreg(kC1))
+	def("xC2", "unregister", unreg(kC2))
+	def("xD0", "unregister", unreg(kD0))
+	def("vVc2", "vote", vote(kV, kC2)) // +5
+	def("vVc3", "vote", vote(kV, kC3))
+	def("vVc1", "vote", vote(kV, kC1))
+	def("vWc2", "vote", vote(kW, kC2)) // +1
+	def("vWd0", "vote", vote(kW, kD0))
+	def("tFV", "transfer-to-voter", xfer(node.Founder(), kV, 1000)) // V: 5 -> 10 votes
+	def("tVF", "transfer-from-voter", xfer(kV, node.Founder(), 500)) // V: 5 -> 2 votes
+}
+
+func txKinds(spec string) string {
+	if spec == "-" {
+		return "-"
+	}
+	var l []string
+	for _, n := range strings.Split(spec, ",") {
+		d := txsB[n]
+		if d == nil {
+			panic(errInvalidHistory)
+		}
+		who := strings.TrimLeft(n, "rxuvt")
+		if i := strings.IndexAny(who, "+"); i >= 0 {
+			who = who[:i]
+		}
+		l = append(l, d.kind+"("+who+")")
+	}
+	return strings.Join(l, ",")
+}
+
+const expBaseB = uint64(node.GenesisTime) + 1500
+
+func prefixTxsB() types.Transactions {
+	min := params.MinCandidateDeposit
+	fo := node.Founder()
+	e := expBaseB - 100
+	fund := func(k *node.Key, amount *big.Int, i uint64) *types.Transaction { return node.Transfer(fo, k.Addr, amount, e+i) }
+	return types.Transactions{
+		fund(kV, node.Lemo(1090), 0),
+		fund(kW, node.Lemo(300), 1),
+		fund(kD0, node.Lemo(100), 2),
+		fund(kC1, new(big.Int).Add(min, node.Lemo(2000)), 3),
+		fund(kC2, new(big.Int).Add(min, node.Lemo(2000)), 4),
+		fund(kC3, new(big.Int).Add(min, node.Lemo(2000)), 5),
+		node.Register(kC1, new(big.Int).Add(min, node.Lemo(400)), profileB(kC1, "true"), e+6), // 50004 votes
+		node.Register(kC2, new(big.Int).Add(min, node.Lemo(100)), profileB(kC2, "true"), e+7), // 50001 votes
+	}
+}
+
+// ---------------------------------------------------------------------------------------------
+// scenarios
+
+type scenB struct {
+	Name         string
+	Menu         map[int][]string // height -> blocks ("-" or tx names separated by commas)
+	MaxHeight    int
+	MaxRestarts  int
+	RestartsFrom int // restarts are events once the head has reached this height
+}
+
+func heightKind(h int) string {
+	switch {
+	case h%termDuration == 0:
+		return "snapshot"
+	case h%termDuration == termDuration-1:
+		return "parent-of-snapshot"
+	case h > termDuration && h%termDuration == interimDuration+1:
+		return "first-of-term"
+	case h > termDuration && h%termDuration <= interimDuration:
+		return "interim"
+	}
+	return "normal"
+}
+
+func (s *scenB) describe() interface{} {
+	menu := map[string][]string{}
+	for h, m := range s.Menu {
+		menu[fmt.Sprintf("height_%02d(%s)", h, heightKind(h))] = m
+	}
+	return map[string]interface{}{"block_menu_per_height": menu, "max_height": s.MaxHeight, "max_restarts": s.MaxRestarts,
+		"restarts_from_height": s.RestartsFrom, "term_duration": termDuration, "interim_duration": interimDuration,
+		"deputies_per_term": deputyCount, "list_slots": listLimit,
+		"txs": "r=register(deposit: min / +100 / +300 / +500 LEMO), u=top-up, x=unregister, v=vote/re-vote, t=transfer to/from the voter V"}
+}
+
+func (s *scenB) depth() int { return s.MaxHeight - 1 + s.MaxRestarts }
 
 var scenariosB = map[string]*scenB{}
 var sampleB []string
 
-func setTierB(th bool)                                         {}
-func runLayerB(hist []string) core.Outcome                     { return core.Outcome{} }
-func toFreeB(hist []string) []string                           { return hist }
-func shrinkB(h []string, fails func([]string) bool) []string   { return h }
-func kindSeqB(evs []string) string                             { return "" }
+func setTierB(th bool) {
+	one := []string{"-", "rC3+3", "rC3+5", "uC2+3", "xC1", "xD0", "vVc2", "vWc2"}
+	if th {
+		scenariosB["B:term"] = &scenB{Name: "B:term", MaxHeight: 6, MaxRestarts: 1, Menu: map[int][]string{
+			2: one, 3: one, 4: append(append([]string{}, one...), "uC2+5"), 5: {"-", "xC1"}, 6: {"-"}}}
+		pairs := []string{"-", "rC3+3", "uC2+1", "xC1", "xD0", "vVc2", "vWc2", "tFV", "rC3", "rC3+1", "vVc2,vWc2", "xC1,rC3+3", "uC2+1,vWc2", "vVc2,xC1",
+			"tFV,vVc2", "xD0,rC3", "rC3+3,vVc3", "xC1,xC2", "tVF,vWc2", "xC1,xD0", "vWd0,xD0"}
+		scenariosB["B:pairs"] = &scenB{Name: "B:pairs", MaxHeight: 6, MaxRestarts: 1, Menu: map[int][]string{
+			2: {"-"}, 3: pairs, 4: pairs, 5: {"-"}, 6: {"-"}}}
+		scenariosB["B:two-terms"] = &scenB{Name: "B:two-terms", MaxHeight: 10, MaxRestarts: 1, RestartsFrom: 4, Menu: map[int][]string{
+			2: {"-"}, 3: {"-", "rC3+5", "xD0"}, 4: {"-"}, 5: {"-"}, 6: {"-", "rC3+3"}, 7: {"-", "vVc2", "xC1", "uC2+3", "rC3+5"},
+			8: {"-", "vVc2", "xC1", "uC2+3", "rC3+5"}, 9: {"-"}, 10: {"-"}}}
+	} else {
+		scenariosB["B:term"] = &scenB{Name: "B:term", MaxHeight: 6, MaxRestarts: 1, Menu: map[int][]string{
+			2: {"-", "rC3+3", "xC1"}, 3: {"-", "rC3+5", "uC2+3", "xC1", "xD0", "vWc2"}, 4: {"-", "uC2+3", "uC2+5", "xC1", "vVc2"}, 5: {"-"}, 6: {"-"}}}
+	}
+	scenariosB["B:free"] = &scenB{Name: "B:free", MaxHeight: 14, MaxRestarts: 9}
+	sampleB = []string{"B:term", "b rC3+3", "rs", "b vWc2", "b -", "b -", "b -"}
+}
 
-var ruleText = "TODO"
-var assumptions = []string{}
+func toFreeB(hist []string) []string { return append([]string{"B:free"}, hist[1:]...) }
+
+// ---------------------------------------------------------------------------------------------
+// nodes
+
+func startB(dir string, self *node.Key, db *store.ChainDatabase) *node.Node {
+	dm := deputynode.NewManager(deputyCount, db)
+	pool := txpool.NewTxPool()
+	bc, err := chain.NewBlockChain(chain.Config{ChainID: node.ChainID, MineTimeout: node.MineTimeout}, dm, db, flag.CmdFlags{}, pool)
+	if err != nil {
+		panic(err)
+	}
+	return &node.Node{Dir: dir, Deputies: deputyCount, Self: self, DB: db, DM: dm, Pool: pool, BC: bc}
+}
+
+func newNodeB(prefix string, self *node.Key) *node.Node {
+	dir := core.ScratchDir(prefix)
+	node.SetSelf(self)
+	db := node.OpenDB(dir)
+	node.SetupGenesis(db, 1)
+	return startB(dir, self, db)
+}
+
+type worldB struct {
+	sc       *scenB
+	f, o     *node.Node
+	head     *types.Block
+	wires    []*types.Block
+	restarts int
+	blocks   int // block events so far
+	o1       *core.Outcome
+	full     []string
+	lastKind string
+}
+
+func (w *worldB) close() {
+	for _, n := range []*node.Node{w.f, w.o} {
+		if n != nil {
+			func() {
+				defer func() { recover() }()
+				n.Destroy()
+			}()
+			os.RemoveAll(n.Dir)
+		}
+	}
+}
+
+func (w *worldB) viol(fp, what string) {
+	w.o1.Violations = append(w.o1.Violations, core.Violation{Fingerprint: prop + "/B/" + fp,
+		What: what + fmt.Sprintf(" [history %v]", w.full), Replay: replayT{History: w.full}})
+}
+
+func catch(f func()) (err error) {
+	defer func() {
+		if p := recover(); p != nil {
+			err = fmt.Errorf("panic: %v", p)
+		}
+	}()
+	f()
+	return nil
+}
+
+func firstLine(s string) string {
+	if i := strings.IndexByte(s, '\n'); i >= 0 {
+		s = s[:i]
+	}
+	if len(s) > 100 {
+		s = s[:100]
+	}
+	return s
+}
+
+// deputiesAt: the deputies entitled to sign blocks at height h according to n's deputy manager.
+func deputiesAt(n *node.Node, h uint32) types.DeputyNodes { return n.DM.GetDeputiesByHeight(h, true) }
+
+func keyOfAddr(a common.Address) *node.Key {
+	for _, c := range candsB {
+		if c.key.Addr == a {
+			return c.key
+		}
+	}
+	return nil
+}
+
+// build runs the real assembler on n's state of parent: the honest miner's computation.
+func build(n *node.Node, parent *types.Block, miner *node.Key, t uint32, txs types.Transactions) (block *types.Block, invalid types.Transactions, err error) {
+	node.SetSelf(miner)
+	defer n.Use()
+	am := account.NewManager(parent.Hash(), n.DB)
+	proc := transaction.NewTxProcessor(node.Founder().Addr, node.ChainID, n.BC, am, n.DB, n.DM)
+	dp := consensus.NewDPoVP(consensus.Config{ChainID: node.ChainID, MineTimeout: node.MineTimeout, RewardManager: node.Founder().Addr},
+		n.DB, n.DM, am, n.BC, txpool.NewTxPool(), txpool.NewTxGuard(parent.Time()))
+	asm := consensus.NewBlockAssembler(am, n.DM, proc, dp)
+	header, err := asm.PrepareHeader(parent.Header, "")
+	if err != nil {
+		return nil, nil, fmt.Errorf("PrepareHeader: %v", err)
+	}
+	header.Time = t
+	cl := make(types.Transactions, len(txs))
+	for i, tx := range txs {
+		cl[i] = tx.Clone()
+	}
+	return asm.MineBlock(header, cl, node.HugeTimeout)
+}
+
+// minerFor picks the deputy (rank order) and the earliest time at which it is in turn on parent.
+func (w *worldB) minerFor(parent *types.Block) (*node.Key, uint32) {
+	deps := deputiesAt(w.f, parent.Height()+1)
+	for _, d := range deps {
+		k := keyOfAddr(d.MinerAddress)
+		if k == nil {
+			continue
+		}
+		if t, ok := node.SlotTime(w.f.DM, parent, k, len(deps)); ok {
+			if t <= parent.Time() {
+				t = parent.Time() + 1
+				if t2, ok2 := slotAtOrAfter(w.f.DM, parent, k, len(deps), t); ok2 {
+					t = t2
+				} else {
+					continue
+				}
+			}
+			return k, t
+		}
+	}
+	return nil, 0
+}
+
+func slotAtOrAfter(dm *deputynode.Manager, parent *types.Block, miner *node.Key, n int, from uint32) (uint32, bool) {
+	for t := from; t < from+uint32(n+1)*uint32(node.MineTimeout/1000); t++ {
+		addr, err := consensus.GetCorrectMiner(parent.Header, int64(t)*1000, int64(node.MineTimeout), dm)
+		if err == nil && addr == miner.Addr {
+			return t, true
+		}
+	}
+	return 0, false
+}
+
+// ---------------------------------------------------------------------------------------------
+// observations
+
+type candStB struct {
+	flag    string
+	votes   *big.Int
+	deposit string
+}
+
+type obsB struct {
+	node   string
+	got    []entry
+	want   []entry
+	reg    []entry
+	index  []entry
+	states map[string]candStB
+	extra  string // balances / voteFor of the accounts the alphabet uses (state key only)
+}
+
+func toEntriesB(l []*store.Candidate) []entry {
+	out := make([]entry, len(l))
+	for i, c := range l {
+		out[i] = entry{nameB(c.Address), c.Address, c.Total.Int64()}
+	}
+	return out
+}
+
+func observeB(n *node.Node, label string, hash common.Hash) obsB {
+	o := obsB{node: label, states: map[string]candStB{}}
+	o.got = toEntriesB(n.DB.GetCandidatesTop(hash))
+	var cb *store.CBlock
+	if n.DB.LastConfirm.Block != nil && n.DB.LastConfirm.Block.Hash() == hash {
+		cb = n.DB.LastConfirm
+	} else {
+		cb = n.DB.UnConfirmBlocks[hash]
+	}
+	if cb != nil {
+		o.index = toEntriesB(cb.CandidateTrieDB.GetAll())
+		sort.Slice(o.index, func(i, j int) bool { return bytes.Compare(o.index[i].addr[:], o.index[j].addr[:]) < 0 })
+	}
+	am := account.NewManager(hash, n.DB)
+	for _, c := range candsB {
+		acc := am.GetAccount(c.key.Addr)
+		v := acc.GetVotes()
+		if v == nil {
+			v = new(big.Int)
+		}
+		st := candStB{acc.GetCandidateState(types.CandidateKeyIsCandidate), new(big.Int).Set(v), acc.GetCandidateState(types.CandidateKeyDepositAmount)}
+		o.states[c.name] = st
+		if st.flag == types.IsCandidateNode {
+			o.reg = append(o.reg, entry{c.name, c.key.Addr, v.Int64()})
+		}
+	}
+	o.want = fullSort(o.reg, listLimit)
+	var ex []string
+	for _, k := range []*node.Key{kV, kW, kD0, kC1, kC2, kC3} {
+		acc := am.GetAccount(k.Addr)
+		ex = append(ex, fmt.Sprintf("%s:%s>%s", nameB(k.Addr), acc.GetBalance(), nameB(acc.GetVoteFor())))
+	}
+	o.extra = strings.Join(ex, ",")
+	return o
+}
+
+func (o obsB) stateStr() string {
+	var p []string
+	for _, c := range candsB {
+		s := o.states[c.name]
+		if s.flag != "" {
+			p = append(p, fmt.Sprintf("%s:%s/%s/%s", c.name, s.flag, s.votes, s.deposit))
+		}
+	}
+	return strings.Join(p, ",")
+}
+
+func (o obsB) describe(height uint32, note string) string {
+	return fmt.Sprintf("height %d %s (%s): registered %s; GetCandidatesTop = %s; full sort cut to %d = %s; index = %s",
+		height, o.node, note, fmtList(sortedByName(o.reg)), fmtList(o.got), listLimit, fmtList(o.want), fmtList(o.index))
+}
+
+func sortedByName(l []entry) []entry {
+	out := append([]entry{}, l...)
+	sort.Slice(out, func(i, j int) bool { return out[i].name < out[j].name })
+	return out
+}
+
+// diffKindB names what is wrong with a published list (same classes as layer A).
+func diffKindB(o obsB, prev map[string]candStB) string {
+	for _, e := range o.got {
+		s, ok := o.states[e.name]
+		if !ok || s.flag != types.IsCandidateNode {
+			when := "unregistered-earlier"
+			if p, ok := prev[e.name]; ok && p.flag == types.IsCandidateNode {
+				when = "unregistered-in-this-block"
+			}
+			return "lists-unregistered-candidate(" + when + ")"
+		}
+	}
+	for _, e := range o.got {
+		if o.states[e.name].votes.Int64() != e.votes {
+			return "stale-votes"
+		}
+	}
+	inGot := map[string]bool{}
+	for _, e := range o.got {
+		inGot[e.name] = true
+	}
+	var missing []entry
+	for _, e := range o.want {
+		if !inGot[e.name] {
+			missing = append(missing, e)
+		}
+	}
+	if len(missing) > 0 {
+		if len(o.got) < len(o.want) {
+			return "registered-candidate-missing(list-too-short)"
+		}
+		inWant := map[string]bool{}
+		for _, e := range o.want {
+			inWant[e.name] = true
+		}
+		for _, e := range o.got {
+			if !inWant[e.name] {
+				for _, m := range missing {
+					if m.votes == e.votes {
+						return "wrong-member(loses-the-tie-by-address)"
+					}
+				}
+			}
+		}
+		return "wrong-member(fewer-votes)"
+	}
+	if len(o.got) > len(o.want) {
+		return "too-long"
+	}
+	return "wrong-order"
+}
+
+func fmtDeputies(l types.DeputyNodes) string {
+	p := make([]string, len(l))
+	for i, d := range l {
+		p[i] = fmt.Sprintf("%s#%d:%s", nameB(d.MinerAddress), d.Rank, d.Votes)
+	}
+	return "[" + strings.Join(p, " ") + "]"
+}
+
+func termsOf(dm *deputynode.Manager) string {
+	var sb strings.Builder
+	for t := uint32(0); ; t++ {
+		rec, err := dm.GetTermByHeight(t*termDuration, false)
+		if err != nil {
+			break
+		}
+		fmt.Fprintf(&sb, "T%d%s", rec.TermIndex, fmtDeputies(rec.Nodes))
+	}
+	return sb.String()
+}
+
+func (w *worldB) nodeLabel(n *node.Node) string {
+	if n == w.f {
+		return "F(never restarted)"
+	}
+	return fmt.Sprintf("O(restarts=%d)", w.restarts)
+}
+
+func (w *worldB) nodeClass(n *node.Node) string {
+	if n == w.f {
+		return "node-never-restarted"
+	}
+	if w.restarts > 0 {
+		return "node-restarted"
+	}
+	return "twin-node-not-yet-restarted"
+}
+
+// howB re-evaluates which path of Ranking / updateTop computed the list of block b on a node whose
+// list at the parent was parentTop (see pathOfUpdateTop in layer A).
+func howB(b *types.Block, parentTop []entry, prev, cur map[string]candStB) string {
+	var voteLogs []entry
+	for _, l := range b.ChangeLogs {
+		if l.LogType == account.VotesLog {
+			v := l.NewVal.(big.Int)
+			voteLogs = append(voteLogs, entry{nameB(l.Address), l.Address, v.Int64()})
+		}
+	}
+	unreg := map[common.Address]bool{}
+	touched := map[common.Address]bool{}
+	for _, l := range b.ChangeLogs {
+		touched[l.Address] = true
+	}
+	for _, c := range candsB {
+		// collectUnregisters: every account written by this block whose profile says "not a candidate"
+		if touched[c.key.Addr] && cur[c.name].flag == types.NotCandidateNode {
+			unreg[c.key.Addr] = true
+		}
+	}
+	return pathOfUpdateTop(parentTop, voteLogs, unreg)
+}
+
+func indexStateB(o obsB) string {
+	in := map[string]bool{}
+	for _, e := range o.index {
+		in[e.name] = true
+	}
+	for _, e := range o.reg {
+		if !in[e.name] {
+			return "index-lacks-registered-candidates"
+		}
+	}
+	return "index-complete"
+}
+
+// checkLists evaluates the first clause on both nodes at their head; returns the observations.
+// how(node index) names the code path that computed the list being checked.
+func (w *worldB) checkLists(note string, prevF map[string]candStB, how func(i int, o obsB) string) (of, oo obsB, ok bool) {
+	ok = true
+	hash := w.head.Hash()
+	obs := make([]obsB, 2)
+	reported := map[string]bool{}
+	for i, n := range []*node.Node{w.f, w.o} {
+		var o obsB
+		if err := catch(func() { o = observeB(n, w.nodeLabel(n), hash) }); err != nil {
+			w.viol("list-not-readable/"+w.nodeClass(n)+"/"+firstLine(err.Error()), fmt.Sprintf("%s cannot publish the list of its head at height %d: %v", w.nodeLabel(n), w.head.Height(), err))
+			return of, oo, false
+		}
+		obs[i] = o
+		h := how(i, o)
+		count("branch_B:"+h, 1)
+		line := o.describe(w.head.Height(), note+", list computed by "+h)
+		lastObserved = append(lastObserved, line)
+		if verbose {
+			fmt.Println("  " + line)
+		}
+		count("oracle_B_lists_compared", 1)
+		if len(o.reg) > listLimit {
+			count("oracle_B_lists_with_more_candidates_than_slots", 1)
+		}
+		if hasTie(o.reg) {
+			count("oracle_B_lists_with_tie", 1)
+		}
+		if !sameList(o.got, o.want) {
+			fp := fmt.Sprintf("top-list/%s/list-computed-by=%s", diffKindB(o, prevF), h)
+			if strings.Contains(h, "re-rank-from-index") {
+				fp += "/" + indexStateB(o)
+			}
+			if !reported[fp] { // the twin node failing in the same way is not reported a second time
+				w.viol(fp, line)
+				reported[fp] = true
+			}
+			ok = false
+		}
+	}
+	if ok && obs[0].stateStr() != obs[1].stateStr() {
+		w.viol("harness/account-states-of-the-two-nodes-differ", fmt.Sprintf("F: %s | O: %s", obs[0].stateStr(), obs[1].stateStr()))
+		ok = false
+	}
+	return obs[0], obs[1], ok
+}
+
+// ---------------------------------------------------------------------------------------------
+// events
+
+func (w *worldB) restartO() bool {
+	dir, self := w.o.Dir, w.o.Self
+	w.o.Quiesce()
+	w.o.Close()
+	w.o = nil
+	var n *node.Node
+	if err := catch(func() {
+		node.SetSelf(self)
+		n = startB(dir, self, node.OpenDB(dir))
+	}); err != nil {
+		os.RemoveAll(dir)
+		w.viol("restart-fails/"+firstLine(err.Error()), fmt.Sprintf("the node cannot be started again at height %d: %v", w.head.Height(), err))
+		return false
+	}
+	w.o = n
+	w.restarts++
+	w.lastKind = "restart"
+	count("restart_B", 1)
+	if w.o.BC.CurrentBlock().Hash() != w.head.Hash() {
+		w.viol("restart-loses-the-head", fmt.Sprintf("after the restart the head is height %d, before it was %d", w.o.BC.CurrentBlock().Height(), w.head.Height()))
+		return false
+	}
+	return true
+}
+
+// confirmIfNeeded hands the co-deputies' confirms to a node when a block of a term with several
+// deputies is not stable by the miner's signature alone (so that layer B stays fork-free).
+func (w *worldB) confirmIfNeeded(n *node.Node, b *types.Block, miner *node.Key) {
+	if n.BC.StableBlock().Hash() == b.Hash() {
+		return
+	}
+	var sigs []types.SignData
+	for _, d := range deputiesAt(n, b.Height()) {
+		if k := keyOfAddr(d.MinerAddress); k != nil && k != miner {
+			sigs = append(sigs, node.SignConfirm(k, b.Hash()))
+		}
+	}
+	n.Use()
+	n.BC.InsertConfirms(b.Height(), b.Hash(), sigs)
+}
+
+// block builds the next block from spec on F's state, delivers it to both nodes and evaluates the
+// oracles. ok=false: stop (violation or nothing to expand).
+func (w *worldB) block(spec string, prefix bool) (ok bool) {
+	parent := w.head
+	height := parent.Height() + 1
+	kind := heightKind(int(height))
+	var txs types.Transactions
+	if prefix {
+		txs = prefixTxsB()
+	} else if spec != "-" {
+		for j, name := range strings.Split(spec, ",") {
+			d := txsB[name]
+			if d == nil {
+				panic(errInvalidHistory)
+			}
+			txs = append(txs, d.mk(expBaseB+uint64(w.blocks*8+j)))
+		}
+	}
+	w.lastKind = kind + "[" + txKinds(specOr(spec, prefix)) + "]"
+	// the lists at the parent, as the statement defines them (both nodes were checked at the parent)
+	parentF := observeB(w.f, "F", parent.Hash())
+	parentTops := [][]entry{parentF.got, toEntriesB(w.o.DB.GetCandidatesTop(parent.Hash()))}
+	miner, t := w.minerFor(parent)
+	if miner == nil {
+		w.viol("no-miner/"+kind, fmt.Sprintf("no deputy of the term in charge at height %d has a key of the fixture or a slot: deputies %s", height, fmtDeputies(deputiesAt(w.f, height))))
+		return false
+	}
+	var b *types.Block
+	var invalid types.Transactions
+	var err error
+	if perr := catch(func() { b, invalid, err = build(w.f, parent, miner, t, txs) }); perr != nil {
+		err = perr
+	}
+	if err != nil {
+		w.viol("block-not-producible/"+kind+"/"+firstLine(err.Error()), fmt.Sprintf("the assembler cannot produce block %d %q on the never restarted node's state: %v", height, spec, err))
+		return false
+	}
+	if len(invalid) > 0 || len(b.Txs) != len(txs) {
+		if prefix {
+			panic(fmt.Sprintf("harness: prefix block lost %d transactions", len(invalid)))
+		}
+		// the assembler refused a transaction: the block that was produced is a shorter list, explored under its own name
+		w.o1.Tags = append(w.o1.Tags, "B/discarded/"+txKinds(spec))
+		count("blocks_B_with_discarded_tx", 1)
+		return false
+	}
+	count("blocks_B", 1)
+	if kind == "first-of-term" {
+		count("first_blocks_of_a_new_term_B", 1)
+	}
+	// the restarted node computes the same block from its own state
+	if deputynode.IsSnapshotBlock(height) {
+		var bo *types.Block
+		if perr := catch(func() { bo, _, err = build(w.o, parent, miner, t, txs) }); perr != nil || err != nil {
+			w.viol("block-not-producible/"+kind+"/"+w.nodeClass(w.o), fmt.Sprintf("the assembler cannot produce block %d %q on %s: %v %v", height, spec, w.nodeLabel(w.o), perr, err))
+			return false
+		}
+		if bo.Hash() != b.Hash() {
+			w.viol("nodes-disagree-on-the-snapshot-block/"+w.nodeClass(w.o), fmt.Sprintf("snapshot block %d %q built on F carries deputies %s, built on %s it carries %s", height, spec, fmtDeputies(b.DeputyNodes), w.nodeLabel(w.o), fmtDeputies(bo.DeputyNodes)))
+			return false
+		}
+	}
+	wire := node.Wire(b)
+	for _, n := range []*node.Node{w.f, w.o} {
+		n.Use()
+		var ierr error
+		if perr := catch(func() { ierr = n.BC.InsertBlock(node.Wire(b)) }); perr != nil {
+			ierr = perr
+		}
+		if ierr == nil && n.BC.CurrentBlock().Hash() != b.Hash() {
+			ierr = fmt.Errorf("accepted but not the new head")
+		}
+		if ierr != nil {
+			w.viol("honest-block-refused/"+kind+"/"+w.nodeClass(n)+"/"+firstLine(ierr.Error()), fmt.Sprintf("%s refuses block %d %q (%s, mined by %s, deputies %s): %v", w.nodeLabel(n), height, spec, kind, nameB(miner.Addr), fmtDeputies(b.DeputyNodes), ierr))
+			return false
+		}
+		if perr := catch(func() { w.confirmIfNeeded(n, b, miner) }); perr != nil {
+			w.viol("confirm-panics/"+kind+"/"+firstLine(perr.Error()), fmt.Sprintf("%s panics when block %d %q is confirmed: %v", w.nodeLabel(n), height, spec, perr))
+			return false
+		}
+		if n.BC.StableBlock().Hash() != b.Hash() {
+			w.viol("harness/block-not-stable", fmt.Sprintf("block %d is not stable on %s after the co-deputies' confirms", height, w.nodeLabel(n)))
+			return false
+		}
+		n.Quiesce()
+	}
+	w.head = b
+	w.wires = append(w.wires, wire)
+	w.blocks++
+	of, _, ok := w.checkLists("after-"+kind+"-block", parentF.states, func(i int, o obsB) string {
+		return howB(b, parentTops[i], parentF.states, o.states)
+	})
+	if !ok {
+		return false
+	}
+	line := fmt.Sprintf("after block %d (%s, mined by %s): terms F %s | O %s", height, kind, nameB(miner.Addr), termsOf(w.f.DM), termsOf(w.o.DM))
+	lastObserved = append(lastObserved, line)
+	if verbose {
+		fmt.Println("  " + line)
+	}
+	if deputynode.IsSnapshotBlock(height) {
+		if !w.checkSnapshot(b, parentF, of, spec) {
+			return false
+		}
+	}
+	if termsOf(w.f.DM) != termsOf(w.o.DM) {
+		w.viol("terms-differ/"+w.nodeClass(w.o), line)
+		return false
+	}
+	return true
+}
+
+func specOr(spec string, prefix bool) string {
+	if prefix {
+		return "-"
+	}
+	return spec
+}
+
+// checkSnapshot: the second clause, on the accepted snapshot block b.
+func (w *worldB) checkSnapshot(b *types.Block, parent obsB, post obsB, spec string) bool {
+	count("snapshot_blocks_B", 1)
+	want := parent.want
+	if len(want) > deputyCount {
+		want = want[:deputyCount]
+	}
+	if len(parent.want) > deputyCount {
+		count("snapshot_with_more_listed_than_deputies", 1)
+	}
+	line := fmt.Sprintf("snapshot block %d mined with %q: DeputyNodes %s; published list of its parent %s", b.Height(), spec, fmtDeputies(b.DeputyNodes), fmtList(parent.got))
+	lastObserved = append(lastObserved, line)
+	if verbose {
+		fmt.Println("  " + line)
+	}
+	bad := ""
+	if len(b.DeputyNodes) != len(want) {
+		bad = "wrong-number-of-deputies"
+	}
+	votesDiffer := false
+	for i, d := range b.DeputyNodes {
+		if bad != "" {
+			break
+		}
+		if d.MinerAddress != want[i].addr {
+			bad = "not-the-first-N-of-the-parent-list"
+		} else if d.Rank != uint32(i) {
+			bad = "ranks-not-0..N-1"
+		} else if i > 0 && d.Votes.Cmp(b.DeputyNodes[i-1].Votes) > 0 {
+			bad = "votes-increasing"
+		}
+		if k := keyOfAddr(d.MinerAddress); k != nil && !bytes.Equal(d.NodeID, k.NodeID) {
+			bad = "node-id-is-not-the-candidate's"
+		}
+		if d.Votes.Int64() != want[i].votes {
+			votesDiffer = true
+		}
+	}
+	if votesDiffer {
+		// the votes written into the block are those of the block's own post-state, the membership and
+		// ranks those of the parent's list; counted, and a violation only when they are increasing
+		count("snapshot_votes_differ_from_parent_list(post-state)", 1)
+	}
+	if bad != "" {
+		w.viol("snapshot/"+bad+"/block=["+txKinds(spec)+"]", line+fmt.Sprintf("; the first %d of the full sort at the parent are %s", deputyCount, fmtList(want)))
+		return false
+	}
+	// every node can load the new term from it
+	var rec *deputynode.TermRecord
+	if err := catch(func() { rec = deputynode.NewTermRecord(b.Height(), b.DeputyNodes) }); err != nil || rec == nil {
+		w.viol("snapshot/term-not-loadable/"+firstLine(fmt.Sprint(err)), line+fmt.Sprintf("; NewTermRecord: %v", err))
+		return false
+	}
+	for _, n := range []*node.Node{w.f, w.o} {
+		count("term_loaded_checks", 1)
+		got, err := n.DM.GetTermByHeight(b.Height(), false)
+		if err != nil || fmtDeputies(got.Nodes) != fmtDeputies(b.DeputyNodes) {
+			w.viol("snapshot/term-not-loaded/"+w.nodeClass(n), line+fmt.Sprintf("; %s has terms %s (%v)", w.nodeLabel(n), termsOf(n.DM), err))
+			return false
+		}
+		// a deputy manager built from the stored blocks (what a start does) loads the same terms
+		var dm2 *deputynode.Manager
+		if err := catch(func() { dm2 = deputynode.NewManager(deputyCount, n.DB) }); err != nil {
+			w.viol("snapshot/terms-not-loadable-from-store/"+firstLine(err.Error()), line+fmt.Sprintf("; deputynode.NewManager on the database of %s: %v", w.nodeLabel(n), err))
+			return false
+		}
+		count("term_loaded_checks", 1)
+		if termsOf(dm2) != termsOf(n.DM) {
+			w.viol("snapshot/terms-from-store-differ/"+w.nodeClass(n), line+fmt.Sprintf("; loaded from the store: %s, in memory: %s", termsOf(dm2), termsOf(n.DM)))
+			return false
+		}
+	}
+	return true
+}
+
+// freshNode: a node that was not there receives the whole chain.
+func (w *worldB) freshNode() bool {
+	var n *node.Node
+	ok := true
+	err := catch(func() {
+		n = newNodeB("c10bN", node.K("observerN"))
+		for _, b := range w.wires {
+			n.Use()
+			enc := node.Wire(b)
+			if e := n.BC.InsertBlock(enc); e != nil {
+				w.viol("fresh-node-refuses-the-chain/"+heightKind(int(b.Height())), fmt.Sprintf("a fresh node refuses block %d (%s): %v", b.Height(), heightKind(int(b.Height())), e))
+				ok = false
+				return
+			}
+			if n.BC.StableBlock().Hash() != b.Hash() {
+				var sigs []types.SignData
+				miner, _ := b.SignerNodeID()
+				for _, d := range deputiesAt(n, b.Height()) {
+					if k := keyOfAddr(d.MinerAddress); k != nil && !bytes.Equal(k.NodeID, miner) {
+						sigs = append(sigs, node.SignConfirm(k, b.Hash()))
+					}
+				}
+				n.BC.InsertConfirms(b.Height(), b.Hash(), sigs)
+			}
+			n.Quiesce()
+		}
+		if !ok {
+			return
+		}
+		count("fresh_node_syncs_B", 1)
+		if n.BC.StableBlock().Hash() != w.head.Hash() || termsOf(n.DM) != termsOf(w.f.DM) {
+			w.viol("fresh-node-ends-elsewhere", fmt.Sprintf("a fresh node that received the chain has stable height %d and terms %s; F has %d and %s", n.BC.StableBlock().Height(), termsOf(n.DM), w.head.Height(), termsOf(w.f.DM)))
+			ok = false
+			return
+		}
+		o := observeB(n, "N(fresh)", w.head.Hash())
+		if !sameList(o.got, o.want) {
+			w.viol("top-list/"+diffKindB(o, nil)+"/fresh-node", o.describe(w.head.Height(), "after-sync"))
+			ok = false
+		}
+	})
+	if n != nil {
+		func() {
+			defer func() { recover() }()
+			n.Destroy()
+		}()
+		os.RemoveAll(n.Dir)
+	}
+	if err != nil {
+		w.viol("fresh-node-panics/"+firstLine(err.Error()), fmt.Sprintf("a fresh node receiving the chain: %v", err))
+		return false
+	}
+	return ok
+}
+
+// ---------------------------------------------------------------------------------------------
+
+func (w *worldB) enabled() []string {
+	var out []string
+	h := int(w.head.Height()) + 1
+	if h <= w.sc.MaxHeight {
+		for _, m := range w.sc.Menu[h] {
+			out = append(out, "b "+m)
+		}
+	}
+	if w.restarts < w.sc.MaxRestarts && int(w.head.Height()) >= w.sc.RestartsFrom && w.lastKind != "restart" {
+		out = append(out, "rs")
+	}
+	return out
+}
+
+func runLayerB(full []string) (o core.Outcome) {
+	sc := scenariosB[full[0]]
+	if sc == nil {
+		panic(errInvalidHistory)
+	}
+	evs := full[1:]
+	w := &worldB{sc: sc, o1: &o, full: full}
+	defer w.close()
+	defer func() {
+		if p := recover(); p != nil {
+			if p == errInvalidHistory {
+				o = core.Outcome{}
+				return
+			}
+			panic(p)
+		}
+	}()
+	count("histories_B", 1)
+	t0 := time.Now()
+	w.f = newNodeB("c10bF", node.K("observerF"))
+	w.o = newNodeB("c10bO", node.K("observerO"))
+	w.head = w.f.BC.Genesis()
+	t0 = since("B_nodes", t0)
+	if !w.block("-", true) {
+		if len(o.Violations) == 0 {
+			panic("harness: prefix block failed")
+		}
+		return o
+	}
+	ok := true
+	for i, ev := range evs {
+		core.Journal(fmt.Sprintf("%v @%d", full, i))
+		if verbose {
+			fmt.Printf("event %q\n", ev)
+		}
+		switch {
+		case ev == "rs":
+			ok = w.restartO()
+			if ok {
+				_, _, ok = w.checkLists("after-restart", nil, func(i int, o obsB) string {
+					if i == 1 {
+						return "startup(re-rank-of-persisted-candidates)"
+					}
+					return "unchanged"
+				})
+			}
+		case strings.HasPrefix(ev, "b "):
+			ok = w.block(ev[2:], false)
+		default:
+			panic(errInvalidHistory)
+		}
+		if !ok {
+			break
+		}
+	}
+	since("B_events", t0)
+	if !ok {
+		return o
+	}
+	t0 = time.Now()
+	// a fresh node receives the chain (final state only: every prefix is a history of its own)
+	if len(evs) > 0 && strings.HasPrefix(evs[len(evs)-1], "b ") && (sc.Name == "B:free" || int(w.head.Height())%2 == 0 || int(w.head.Height()) == sc.MaxHeight) {
+		if !w.freshNode() {
+			return o
+		}
+	}
+	since("B_fresh_node", t0)
+	of := observeB(w.f, "F", w.head.Hash())
+	oo := observeB(w.o, "O", w.head.Hash())
+	pf, _ := w.f.DB.Context.GetCandidates()
+	po, _ := w.o.DB.Context.GetCandidates()
+	pl := func(l []*store.Candidate) string {
+		e := toEntriesB(l)
+		sort.Slice(e, func(i, j int) bool { return e[i].name < e[j].name })
+		return fmtList(e)
+	}
+	o.Key = fmt.Sprintf("%s|h=%d|rs=%d|last=%v|%s|%s|F:top%s idx%s pers%s|O:top%s idx%s pers%s|terms %s",
+		sc.Name, w.head.Height(), w.restarts, w.lastKind == "restart", of.stateStr(), of.extra, fmtList(of.got), fmtList(of.index), pl(pf),
+		fmtList(oo.got), fmtList(oo.index), pl(po), termsOf(w.o.DM))
+	if len(evs) < sc.depth() {
+		o.Enabled = w.enabled()
+	}
+	o.Tags = append(o.Tags, "B/"+w.lastKind)
+	return o
+}
+
+// ---------------------------------------------------------------------------------------------
+// shrinking (layer B): events, then single transactions of a block
+
+func shrinkB(h []string, fails func([]string) bool) []string {
+	// a removed block shifts the heights of the following ones: replacing it by an empty block keeps them
+	min := append([]string{}, h...)
+	for changed := true; changed; {
+		changed = false
+		for i := len(min) - 1; i >= 1; i-- {
+			// drop trailing / any event
+			cand := append(append([]string{}, min[:i]...), min[i+1:]...)
+			if fails(cand) {
+				min = cand
+				changed = true
+				continue
+			}
+			if strings.HasPrefix(min[i], "b ") && min[i] != "b -" {
+				cand = append([]string{}, min...)
+				cand[i] = "b -"
+				if fails(cand) {
+					min = cand
+					changed = true
+					continue
+				}
+				txs := strings.Split(min[i][2:], ",")
+				if len(txs) > 1 {
+					for k := range txs {
+						rest := append(append([]string{}, txs[:k]...), txs[k+1:]...)
+						cand = append([]string{}, min...)
+						cand[i] = "b " + strings.Join(rest, ",")
+						if fails(cand) {
+							min = cand
+							changed = true
+							break
+						}
+					}
+				}
+			}
+		}
+	}
+	return min
+}
+
+func kindSeqB(evs []string) string {
+	l := make([]string, len(evs))
+	h := 1
+	for i, e := range evs {
+		if e == "rs" {
+			l[i] = "rs"
+			continue
+		}
+		h++
+		l[i] = heightKind(h) + "[" + txKinds(e[2:]) + "]"
+	}
+	return strings.Join(l, ",")
+}
+
+var ruleText = "BFS over event histories on the real code, a fresh database / fresh nodes per history; the first event names a scenario (sub-alphabet + bounds). " +
+	"Layer A: events nb/ns/nc P ops (block of candidate effects r: register, s: votes change, u: unregister, t: other account change, x: register and unregister in one block, " +
+	"on live parent P, left unconfirmed / stabilised at once / with the process dying inside its stabilisation), st B (SetStableBlock of any unconfirmed block), rs (clean stop + reopen), " +
+	"executed through account.Manager (the setters the transactions call, MergeChangeLogs, Finalise, Save -> CandidatesRanking) and store.ChainDatabase with the list limit set to 3; " +
+	"oracle after every history on every live block of every fork: GetCandidatesTop == full sort (votes desc, address asc) of the registered candidates read from that block's own account view, cut to 3, " +
+	"and that account view == the model. Layer B: events = blocks of real transactions (register, top-up, vote, re-vote, unregister, transfer) built by the real assembler with a real DPoVP as candidate loader " +
+	"and inserted into two real nodes (one never restarted, one restarted by rs events), TermDuration=4, InterimDuration=1, 2 deputies of 3 list slots; oracle per accepted block on both nodes: list == full sort " +
+	"from the node's account state; snapshot block: built identically from both nodes' states, DeputyNodes == first 2 of the full sort at the parent, ranks 0..1, votes non-increasing, NewTermRecord accepts them, " +
+	"both nodes and a deputy manager loaded from the store hold the same terms; both nodes accept every block; the next term's blocks are mined by the elected deputies; a fresh node accepts the whole chain. " +
+	"A state is the canonical form of (per live block: candidate state, published list, in-memory index content, accounts written) + persisted candidate records + restarts used (A) / " +
+	"(height, candidate and voter accounts, list, index and persisted records of both nodes, term list, restarts used) (B); a violating state is not expanded; " +
+	"distinct outcome = code path that computed the newest list x number of live blocks, event kind x op kinds (A), block kind x transaction kinds (B)."
+
+var assumptions = []string{
+	"restart = clean stop (asynchronous store writer drained, Close, reopen); one crash point is enumerated: process death inside SetStableBlock between the move of the stable pointer and the rewrite of context.data (RunContext.Flush); all other crash points, torn writes and the write-ahead recovery are C08's subject",
+	"what a block hands to Ranking: Manager.Save writes every changed account once and passes the VotesLogs that survive MergeChangeLogs, i.e. at most one per account, only when old != new (log_compressor.go), sorted by address; so layer A's ops are one effect per candidate account and block: register (CandidateLog + VotesLog 0->v, v = deposit/100 LEMO >= 50000 > 0), votes change of a registered candidate (VotesLog), unregister (CandidateStateLog isCandidate=false + VotesLog v->0, which vanishes when v was 0, + refund), register and unregister in one block (no VotesLog at all), any other write (no VotesLog); the setters are the ones candidate_vote_tx.go and tx_processor.go call",
+	"only the genesis deputy (deposit 0) can be registered with 0 votes: every other candidate keeps floor(deposit/100 LEMO) >= 50000 votes (C11); votes are never negative (C11)",
+	"an unregistered candidate never registers again (ErrRegisterAgain) and its votes stay 0 (vote and balance adjustments test isCandidate)",
+	"layer A replaces transactions by their effects on the candidate accounts; layer B runs the real transactions and confirms layer A's findings with them",
+	"layer B is fork free: blocks of term 0 are stable by the single genesis deputy's signature, blocks of later terms get the co-deputies' confirms at once; forks are layer A's subject",
+	"block timestamps lie in the past of the wall clock; no oracle depends on time; the engine's goroutines (feeds, own confirms, blacklist) are dropped",
+}
